@@ -309,3 +309,150 @@ def _is_doc(const):
     p = getattr(const, '_parent', None)
     pp = getattr(p, '_parent', None)
     return isinstance(p, ast.Expr) and isinstance(pp, (ast.FunctionDef, ast.ClassDef, ast.Module, ast.AsyncFunctionDef))
+
+
+def enclosing_if_atoms(node, func_node):
+    """Atoms of the tests of the `if`s that enclose node (branch-sensitive), ignoring earlier early exits."""
+    from ..guards import guard_of, atoms
+    out = set()
+    ch, par = node, getattr(node, '_parent', None)
+    while par is not None and par is not func_node:
+        if isinstance(par, ast.If) and any(x is ch for x in par.body + par.orelse):
+            blk = par.body if any(x is ch for x in par.body) else par.orelse
+            out |= set(atoms(guard_of(blk[0], par)))
+        ch, par = par, getattr(par, '_parent', None)
+    return out
+
+
+def guard_only(res, rule, f, node, allowed, what, consequence):
+    """The step `node` of f runs under the conditions `allowed` only."""
+    got = enclosing_if_atoms(node, f.node)
+    ok = got <= set(allowed)
+    res.oblige(rule, f'{f.qualname}: {what} is conditioned on {sorted(allowed)} only', ok, nontrivial=True,
+               sample={'function': f.fullname, 'conditions': sorted(got)})
+    if not ok:
+        res.add(Finding(rule, f.fullname, f'guard of {what}', f'{f.module.relpath}:{node.lineno}',
+                        f'{f.qualname}: {what} runs under the conditions {sorted(got)} instead of {sorted(allowed)} alone: {consequence}', {}))
+    return ok
+
+
+_TOL_CALLS = ('isclose', 'allclose')
+
+
+def run_scale_free(repo, res, modules):
+    """Scale equivariance (f(k*data) = k*f(data)) has a structural necessary condition: the code compares data-derived
+    statistics with no absolute tolerance (np.isclose/allclose default atol=1e-8, tolerance-like float literals)."""
+    n = 0
+    for f in repo.functions.values():
+        if f.module.name not in modules or f.outer is not None:
+            continue
+        bad = []
+        for node in ast.walk(f.node):
+            if isinstance(node, ast.Call) and isinstance(node.func, ast.Attribute) and node.func.attr in _TOL_CALLS:
+                atol = next((k.value for k in node.keywords if k.arg == 'atol'), None)
+                if not (isinstance(atol, ast.Constant) and atol.value == 0):
+                    bad.append((node, f'`{unparse(node, 70)}` uses an absolute tolerance'))
+            if isinstance(node, ast.Compare):
+                for side in [node.left] + list(node.comparators):
+                    if isinstance(side, ast.Constant) and isinstance(side.value, float) and 0 < abs(side.value) <= 1e-3:
+                        bad.append((node, f'`{unparse(node, 70)}` compares with the absolute tolerance {side.value!r}'))
+                    if isinstance(side, ast.Attribute) and side.attr in ('eps', 'tiny', 'resolution') and 'finfo' in unparse(side, 0):
+                        bad.append((node, f'`{unparse(node, 70)}` compares with the absolute tolerance {unparse(side, 40)}'))
+        n += 1
+        res.oblige('SCALE', f'{f.qualname} compares data-derived values with no absolute tolerance', not bad, nontrivial=True)
+        for node, why in bad:
+            res.add(Finding('SCALE', f.fullname, unparse(node, 80), f'{f.module.relpath}:{node.lineno}',
+                            f'{f.qualname}: {why}: the result is no longer equivariant under data -> k*data '
+                            f'(values below the tolerance in the current units take a different branch)', {}))
+    return n
+
+
+def run_axis_dispatch(repo, res, modules):
+    """A function that selects per-axis quantities in an `if axis == 0: ... elif axis == 1: ...` dispatch must be axis-neutral
+    afterwards: a `shape[0]`-like subscript, an x/y attribute of self, or an x/y local defined before the dispatch that is used
+    after it serves one axis only."""
+    from .. import axis as AX
+    n = 0
+    for f in repo.functions.values():
+        if f.module.name not in modules or 'axis' not in f.params:
+            continue
+        body = f.node.body
+        for i, st in enumerate(body):
+            if not (isinstance(st, ast.If) and isinstance(st.test, ast.Compare) and unparse(st.test.left, 0) == 'axis'
+                    and st.orelse and len(st.orelse) == 1 and isinstance(st.orelse[0], ast.If)):
+                continue
+            n += 1
+            pre = set()
+            for p_ in body[:i]:
+                for nd in ast.walk(p_):
+                    if isinstance(nd, ast.Name) and isinstance(nd.ctx, ast.Store) and isinstance(AX.name_tag(nd.id), str):
+                        pre.add(nd.id)
+            bad = []
+            for later in body[i + 1:]:
+                for nd in ast.walk(later):
+                    if isinstance(nd, ast.Subscript) and AX._const_index(nd.slice) in (0, 1) and AX.order_of(nd.value) is not None:
+                        bad.append(nd)
+                    elif isinstance(nd, ast.Name) and isinstance(nd.ctx, ast.Load) and nd.id in pre:
+                        bad.append(nd)
+                    elif isinstance(nd, ast.Attribute) and isinstance(AX.name_tag(nd.attr), str) and unparse(nd, 0).startswith('self.'):
+                        bad.append(nd)
+            res.oblige('AXIS-DISPATCH', f'{f.qualname}: the code after the axis dispatch is axis-neutral', not bad, nontrivial=True,
+                       sample={'function': f.fullname, 'pre_dispatch_axis_names': sorted(pre)})
+            for nd in bad:
+                stx = enclosing_stmt(nd)
+                res.add(Finding('AXIS-DISPATCH', f.fullname, norm_stmt_text(stx), f'{f.module.relpath}:{nd.lineno}',
+                                f'{f.qualname}: `{unparse(nd, 60)}` in `{norm_stmt_text(stx)}` is a quantity of one fixed axis, used after the '
+                                f'`axis` dispatch: the other axis gets the wrong extent/centre', {}))
+    return n
+
+
+def run_late_update(repo, res, modules):
+    """A boolean mask B that has been merged into another mask M (`M = M | B`, `M |= B`, `M = B | ...`) must be complete at
+    that point: a later `B |= more` does not reach M (or reaches it on the aliasing path `M = B` only)."""
+    n = 0
+    for f in repo.functions.values():
+        if f.module.name not in modules or f.outer is not None:
+            continue
+        joins = {}      # B -> (first line where B is merged into another name, that name)
+        for st in ast.walk(f.node):
+            if isinstance(st, ast.Assign) and len(st.targets) == 1 and isinstance(st.targets[0], ast.Name):
+                tgt, val = st.targets[0].id, st.value
+            elif isinstance(st, ast.AugAssign) and isinstance(st.op, ast.BitOr) and isinstance(st.target, ast.Name):
+                tgt, val = st.target.id, st.value
+            else:
+                continue
+            terms = val.values if isinstance(val, ast.BoolOp) else _bitor_terms(val)
+            for t in terms:
+                if isinstance(t, ast.Name) and t.id != tgt and 'mask' in t.id.lower() and 'mask' in tgt.lower():
+                    if t.id not in joins or st.lineno < joins[t.id][0]:
+                        joins[t.id] = (st.lineno, tgt)
+        if not joins:
+            continue
+        n += 1
+        bad = []
+        for st in ast.walk(f.node):
+            if isinstance(st, ast.AugAssign) and isinstance(st.op, ast.BitOr) and isinstance(st.target, ast.Name) \
+                    and st.target.id in joins and st.lineno > joins[st.target.id][0] and not _in_loop(st, f.node):
+                bad.append((st, joins[st.target.id]))
+        res.oblige('LATE-UPDATE', f'{f.qualname}: masks are complete before they are merged', not bad, nontrivial=True,
+                   sample={'function': f.fullname, 'merged': {k: v[1] for k, v in joins.items()}})
+        for st, (ln, tgt) in bad:
+            res.add(Finding('LATE-UPDATE', f.fullname, norm_stmt_text(st), f'{f.module.relpath}:{st.lineno}',
+                            f'{f.qualname}: `{norm_stmt_text(st)}` extends `{st.target.id}` after it was merged into `{tgt}` (line {ln}): '
+                            f'the added pixels do not reach `{tgt}` on the path where the merge made a new array', {}))
+    return n
+
+
+def _bitor_terms(e):
+    if isinstance(e, ast.BinOp) and isinstance(e.op, ast.BitOr):
+        return _bitor_terms(e.left) + _bitor_terms(e.right)
+    return [e]
+
+
+def _in_loop(node, func_node):
+    p = getattr(node, '_parent', None)
+    while p is not None and p is not func_node:
+        if isinstance(p, (ast.For, ast.While)):
+            return True
+        p = getattr(p, '_parent', None)
+    return False
